@@ -106,14 +106,30 @@ def run_requests(variant, proxy, http1, http2, alpn, reqs):
     plan = []
     for i, (scheme, host, pf, sni) in enumerate(reqs):
         base, port = url_of(scheme, host, pf)
-        if sni == "@target":
+        if sni == "@mutate":
+            # ONE URL object for the whole sequence, its scheme / host / port / target re-assigned in place before each request
+            plan.append((f"{base}/t/q{i}", {"@mutate": True}, scheme, host, port, None))
+        elif sni == "@target":
             # the "target" request extension (here: naming the URL's own path) must leave the destination alone
             plan.append((f"{base}/t/q{i}", {"target": f"/t/q{i}".encode()}, scheme, host, port, None))
         else:
             plan.append((f"{base}/t/q{i}", {"sni_hostname": sni} if sni else {}, scheme, host, port, sni))
+    shared = [None]
+
+    def the_url(url, ext):
+        if not ext.get("@mutate"):
+            return url, ext
+        fresh = httpcore.URL(url)
+        if shared[0] is None:
+            shared[0] = fresh
+        else:
+            u = shared[0]
+            u.scheme, u.host, u.port, u.target = fresh.scheme, fresh.host, fresh.port, fresh.target
+        return shared[0], {}
     if variant == "sync":
         def prog():
             for url, ext, *_ in plan:
+                url, ext = the_url(url, ext)
                 try:
                     r = pool.request("GET", url, extensions=dict(ext))
                     results.append(("ok", r.status, r.content))
@@ -124,6 +140,7 @@ def run_requests(variant, proxy, http1, http2, alpn, reqs):
     else:
         async def aprog():
             for url, ext, *_ in plan:
+                url, ext = the_url(url, ext)
                 try:
                     r = await pool.request("GET", url, extensions=dict(ext))
                     results.append(("ok", r.status, r.content))
@@ -239,6 +256,17 @@ def pair_cases(tier):
                     yield ("pair", proxy, h1, h2, alpn, [(*(x if k == 0 else y), None) for k in s])
 
 
+def mutated_url_cases(tier):
+    """Near-miss sequences again, all requests of a sequence made from one URL object that is changed in place."""
+    n = 0
+    for c in pair_cases("quick"):
+        kind, proxy, h1, h2, alpn, reqs = c
+        n += 1
+        if tier == "quick" and n % 6:
+            continue
+        yield ("mutated", proxy, h1, h2, alpn, [(r[0], r[1], r[2], "@mutate") for r in reqs])
+
+
 def run_case(case, variant):
     kind, proxy, h1, h2, alpn, reqs = case
     reqs = [tuple(r) for r in reqs]
@@ -262,7 +290,7 @@ def _job(chunk):
 
 
 def check(tier="quick", seed=0, workers=None, only=None):
-    allc = list(config_cases(tier)) + list(pair_cases(tier))
+    allc = list(config_cases(tier)) + list(pair_cases(tier)) + list(mutated_url_cases(tier))
     nw = workers or min(16, os.cpu_count() or 1)
     size = max(1, len(allc) // (nw * 8))
     chunks = [allc[i:i + size] for i in range(0, len(allc), size)]
@@ -275,7 +303,7 @@ def check(tier="quick", seed=0, workers=None, only=None):
     ncfg = sum(1 for c in allc if c[0] == "config")
     cov = {"evaluations": total, "distinct_nontrivial": len(classes), "exhaustive": True,
            "rule": ("full configuration product scheme(4) x port form(4) x proxy mode(5) x http1/http2 switches(3) x ALPN outcome(3) x sni_hostname(2), the same with the target request extension, and every request "
-                    "sequence of length 2-3 over every pair of origins (4 schemes x 2 hosts x 4 port forms) differing in exactly one effective component, sync and async; "
+                    "sequence of length 2-3 over every pair of origins (4 schemes x 2 hosts x 4 port forms) differing in exactly one effective component (also with all requests of a sequence made from one URL object changed in place), sync and async; "
                     "distinct class = (kind, proxy, switches, ALPN, schemes of the sequence, violated?)"),
            "samples": [{"case": repr(c)[:300]} for c in allc[:: max(1, len(allc) // 5)][:5]], "configurations": ncfg, "pair_sequences": len(allc) - ncfg}
     return {"level": "exploration", "coverage": cov, "violations": viols,
